@@ -396,6 +396,35 @@ pub fn c01(ctx: &mut Ctx) -> Option<Failure> {
             return r;
         }
     }
+    // the wrappers that search (str_replace_re_all) use the thread-local manager: their answers must not depend on
+    // how many unrelated terms that manager already holds (each spawned thread has a fresh thread-local manager)
+    for history in [0u32, 1, 2, 3, 5, 8, 50] {
+        let r = ctx.case(|| {
+            watch(format!("str_replace_re_all(_, (ab)*c, \"_\") on a thread whose manager first built {} unrelated terms", history));
+            use aws_smt_strings::smt_regular_expressions as sre;
+            let res = std::thread::spawn(move || {
+                for i in 0..history {
+                    let x = sre::re_range(&SmtString::from(0x100 + i), &SmtString::from(0x200 + i));
+                    let _ = sre::re_comp(sre::re_star(x));
+                }
+                let ab = sre::str_to_re(&SmtString::from(&[A, A + 1][..]));
+                let c = sre::str_to_re(&SmtString::from(&[A + 2][..]));
+                let pat = sre::re_concat(sre::re_star(ab), c);
+                let inputs: Vec<Vec<u32>> = vec![vec![A, A + 1, A, A + 1, A + 2], vec![120, 120, A, A + 1, A + 2, 100, 101, 120], vec![A + 2]];
+                inputs.iter().map(|w| sre::str_replace_re_all(&SmtString::from(&w[..]), pat, &SmtString::from(&[95u32][..])).as_ref().to_vec()).collect::<Vec<Vec<u32>>>()
+            })
+            .join();
+            let exp: Vec<Vec<u32>> = vec![vec![95], vec![120, 120, 95, 100, 101, 120], vec![95]];
+            match res {
+                Ok(got) if got == exp => None,
+                Ok(got) => fail("smt_regular_expressions::str_replace_re_all(history)", format!("pattern (ab)*c, inputs ababc / xxabcdex / c, {} unrelated terms built first", history), format!("{:?}", exp), format!("{:?}", got)),
+                Err(_) => fail("smt_regular_expressions::str_replace_re_all(history)", format!("{} unrelated terms built first", history), "a result".into(), "panic".into()),
+            }
+        });
+        if r.is_some() {
+            return r;
+        }
+    }
     let mut shared = ReManager::new();
     for (n, ast) in asts.into_iter().enumerate() {
         if ctx.out_of_time() {
@@ -593,12 +622,21 @@ fn random_builder_automaton(ctx: &mut Ctx) -> (Automaton, String) {
         let d = lo + ctx.below((n - lo) as u64) as u32;
         b.set_default_successor(&q, &d);
         desc.push_str(&format!(" [{}: default->{}", q, d));
-        for (k, c) in [A, A + 1, A + 2].iter().enumerate() {
-            if ctx.below(3) != 0 {
-                let t = lo + ctx.below((n - lo) as u64) as u32;
-                if t != d || k == 0 {
-                    b.add_transition(&q, &CharSet::singleton(*c), &t);
-                    desc.push_str(&format!(" {}->{}", c, t));
+        if ctx.below(4) == 0 {
+            // one label that is a range: other states cut it with their own labels, so the combined partition has
+            // classes that are not a class of any single state
+            let (x, y) = [(A, A + 3), (A + 1, A + 2), (A, A + 1), (A + 2, A + 3)][ctx.below(4) as usize];
+            let t = lo + ctx.below((n - lo) as u64) as u32;
+            b.add_transition(&q, &CharSet::range(x, y), &t);
+            desc.push_str(&format!(" [{},{}]->{}", x, y, t));
+        } else {
+            for (k, c) in [A, A + 1, A + 2].iter().enumerate() {
+                if ctx.below(3) != 0 {
+                    let t = lo + ctx.below((n - lo) as u64) as u32;
+                    if t != d || k == 0 {
+                        b.add_transition(&q, &CharSet::singleton(*c), &t);
+                        desc.push_str(&format!(" {}->{}", c, t));
+                    }
                 }
             }
         }
@@ -638,7 +676,44 @@ pub fn builder_automata_checks(ctx: &mut Ctx, which: &str) -> Option<Failure> {
             }
             let nreach = reach.iter().filter(|&&x| x).count();
             if which == "C14" {
+                if ctx_flip {
+                    // renumber first (minimize keeps the language): the initial state need not be state 0 afterwards
+                    let _ = guarded(|| a.minimize());
+                    let after_min: Vec<Result<bool, String>> = ws.iter().map(|w| accepts_ref(&a, w)).collect();
+                    for (i, w) in ws.iter().enumerate() {
+                        if after_min[i] != Ok(before[i]) {
+                            return None; // a C04 matter, not decided here
+                        }
+                    }
+                }
+                let n = a.num_states();
+                let mut reach = vec![false; n];
+                let mut stack = vec![a.initial_state().id()];
+                reach[stack[0]] = true;
+                while let Some(q) = stack.pop() {
+                    for c in [A, A + 1, A + 2, A + 3, 0, MAXC] {
+                        let t = a.next(a.state(q), c).id();
+                        if !reach[t] {
+                            reach[t] = true;
+                            stack.push(t);
+                        }
+                    }
+                }
+                let nreach = reach.iter().filter(|&&x| x).count();
                 let alpha = a.pick_alphabet();
+                // exactly one character of each class of the combined partition
+                let cp = a.combined_char_partition();
+                let mut seen_classes: Vec<ClassId> = Vec::new();
+                for &c in &alpha {
+                    let cid = cp.class_of_char(c);
+                    if seen_classes.contains(&cid) {
+                        return fail("Automaton::pick_alphabet", desc.clone(), "one character per class of combined_char_partition".into(), format!("two characters of class {:?} in {:?}", cid, alpha));
+                    }
+                    seen_classes.push(cid);
+                }
+                if alpha.len() != cp.num_classes() {
+                    return fail("Automaton::pick_alphabet", desc.clone(), format!("{} characters (classes of combined_char_partition)", cp.num_classes()), format!("{:?}", alpha));
+                }
                 let table = a.compile_successors();
                 for q in 0..n {
                     for (j, &c) in alpha.iter().enumerate() {
